@@ -1,16 +1,17 @@
 # Per-property configuration of bin/check, assembled from bin/props.d/<Cxx>.json (one file per property):
 #   streams: [[stream, {"quick": n, "thorough": n}], ...], rule, level_text, level_note, assumptions, trusted, technique, timeout
 import json, glob, os
+_V = os.environ.get('VERIF_ROOT', '/verif')
 GLUE = 'OCaml driver glue (ocaml/*.ml: s-expression I/O, int/string <-> Z/list Z conversion) and extraction with ExtrOcamlBasic only (no Extract Constant of our own)'
 HARNESS = 'Go correspondence harness /verif/harness (built -tags verif against /repo working tree) reports what the implementation did; its generators bound what the tie can see'
 PROPS = {}
-for f in sorted(glob.glob('/verif/bin/props.d/C*.json')):
+for f in sorted(glob.glob(_V + '/bin/props.d/C*.json')):
     c = json.load(open(f))
     c['streams'] = [(s, n) for s, n in c['streams']]
     c['trusted'] = [GLUE, HARNESS] + c.get('trusted', [])
     PROPS[os.path.basename(f)[:-5]] = c
 NOT_APPLICABLE = []
-_all = [json.loads(l)['id'] for l in open('/verif/properties.jsonl')]
+_all = [json.loads(l)['id'] for l in open(_V + '/properties.jsonl')]
 for pid in _all:
     if pid not in PROPS:
         NOT_APPLICABLE.append({'property_id': pid, 'reason': 'check not built yet (work in progress, see DESIGN.md section 5 for the planned theorem); not a claim that the technique cannot apply'})
